@@ -153,14 +153,45 @@ char *ut_strdup(const char *str)
     __CPROVER_assume(p != NULL);
     xv_heap_live++;
     memcpy(p, str, n + 1);
+    xv_ld_record(p);
     return p;
+}
+
+/* ---- logging helpers that ctx_store.c runs UNCONDITIONALLY (the LOG_TLS_CTX_* macros format into local buffers before
+ * log_debug_sock() tests log_is_enabled()).  TRUSTED(libxcm/tp/tls/log_tls.c, common/util.c ut_aprintf): they write a
+ * NUL-terminated string of arbitrary content inside the buffer they are given; the text is not modelled.
+ * snprintf goes through prelude.h's macro to xv_snprintf (env/libc_fmt.h); ut_aprintf is variadic, the unit header
+ * routes it to xv_aprintf(buf, capacity) the same way. */
+void hash_description(uint8_t *hash, size_t hash_len, char *buf)
+{
+    __CPROVER_assert(hash_len >= 1 && __CPROVER_r_ok(hash, hash_len), "hash_description: hash readable");
+    __CPROVER_havoc_slice(buf, hash_len * 3);     /* "xx:" per byte, the last ':' replaced by NUL (log_tls.c:14-20) */
+    buf[hash_len * 3 - 1] = '\0';
+}
+void log_tls_get_error_stack(char *buf, size_t capacity)
+{
+    __CPROVER_assert(capacity >= 1, "log_tls_get_error_stack: capacity");
+    __CPROVER_havoc_slice(buf, capacity);
+    buf[capacity - 1] = '\0';
+}
+void xv_aprintf(char *buf, size_t capacity)
+{
+    __CPROVER_assert(capacity >= 1, "ut_aprintf: capacity");
+    __CPROVER_havoc_slice(buf, capacity);
+    buf[capacity - 1] = '\0';
 }
 
 /* ---- TRUSTED(common/util.c:337-390 load_file/ut_load_text_file over fopen/fread/ferror/fclose): the whole file as a
  * NUL-terminated heap string, or -1 with the errno fopen(3)/fread(3) left; on fopen failure *data is NOT written, on a
  * read error it is NULL.  Files longer than XV_FILE_MAX are not explored. */
 #define XV_FILE_MAX 64
-long xv_ld_calls;        /* ghost: number of item loads (ut_load_text_file or ut_strdup through item_load) */
+long xv_ld_calls;        /* ghost: number of ut_load_text_file calls */
+/* ghost record of credential data handed out (C18 "loaded from data read between two equal hashes"): the results of the
+ * successful loads (ut_load_text_file, ut_strdup) made since the last EVP_DigestFinal_ex; at each EVP_DigestFinal_ex the
+ * record moves to xv_ldb_* ("between the last two digests") and starts again */
+long xv_ld_since_md; const char *xv_ld_res[4];
+long xv_ld_between; const char *xv_ldb_res[4];
+static inline void xv_ld_record(const char *p) { if (xv_ld_since_md >= 0 && xv_ld_since_md < 4) xv_ld_res[xv_ld_since_md] = p; xv_ld_since_md++; }
 ssize_t ut_load_text_file(const char *filename, char **data)
 {
     __CPROVER_assert(__CPROVER_r_ok(filename, 1), "ut_load_text_file: filename readable");
@@ -181,6 +212,7 @@ ssize_t ut_load_text_file(const char *filename, char **data)
     xv_heap_live++;
     p[n] = '\0';
     *data = p;
+    xv_ld_record(p);
     return (ssize_t)n + 1;
 }
 
@@ -249,6 +281,8 @@ int EVP_DigestFinal_ex(EVP_MD_CTX *ctx, unsigned char *md, unsigned int *s)
     if (s != NULL)
         *s = 32;
     xv_md_calls++;
+    xv_ld_between = xv_ld_since_md; xv_ldb_res[0] = xv_ld_res[0]; xv_ldb_res[1] = xv_ld_res[1]; xv_ldb_res[2] = xv_ld_res[2]; xv_ldb_res[3] = xv_ld_res[3];
+    xv_ld_since_md = 0;
     return 1;
 }
 
@@ -264,6 +298,9 @@ void SSL_CTX_free(SSL_CTX *ctx)
     __CPROVER_assert(ctx != xv_ctx_dead, "PO[C08] SSL_CTX_free.not_freed_twice");
     xv_ctxfree_calls++; xv_ctxfree_last = ctx; xv_ctx_live--; xv_ctx_dead = ctx;
 }
+
+/* ---- ghost: arguments and moment of the load_ssl_ctx call (recorded by its contract where it is a cut point) */
+long xv_lsc_calls; const char *xv_lsc_cert, *xv_lsc_key, *xv_lsc_tc, *xv_lsc_crl; long xv_lsc_at_md;
 
 /* ---- ghost: what this thread owns, snapshots of the list at acquire / at release */
 #define XV_CS_MAX 2
@@ -291,6 +328,10 @@ static inline void xv_snap_havoc(struct xv_snap *s)
 static inline void xv_lk_ghost_havoc(void)
 {
     xv_lk_held = nondet_bool(); xv_lk_acq = nondet_long(); xv_lk_rel = nondet_long(); xv_lk_init = nondet_long();
+    xv_ld_since_md = nondet_long(); xv_ld_between = nondet_long();
+    xv_ld_res[0] = xv_ld_res[1] = xv_ld_res[2] = xv_ld_res[3] = NULL; xv_ldb_res[0] = xv_ldb_res[1] = xv_ldb_res[2] = xv_ldb_res[3] = NULL;
+    xv_lsc_calls = nondet_long(); xv_lsc_cert = xv_lsc_key = xv_lsc_tc = xv_lsc_crl = NULL; xv_lsc_at_md = nondet_long();
+    xv_snprintf_ret = nondet_int(); xv_snprintf_cap = nondet_size_t(); xv_snprintf_calls = nondet_int();
     xv_heap_live = nondet_long(); xv_ld_calls = nondet_long(); xv_stat_calls = nondet_long(); xv_lstat_calls = nondet_long();
     xv_dg_len = nondet_size_t(); xv_dg_updates = nondet_long(); xv_mdctx_live = nondet_long();
     xv_md_calls = nondet_long(); xv_md_settle = nondet_long();
@@ -348,6 +389,8 @@ static void xv_lk_others_ran_acquire(void)
     cache.entries.lh_first = e0;
     xv_snap_take(&xv_acq);
 }
+/* harness helper for the jobs of the lock-requiring helpers: "inside a critical section, just after the acquire" */
+static inline void xv_cs_enter(void) { xv_lk_held = 1; xv_lk_others_ran_acquire(); }
 /* release: the invariant must hold again for what is published */
 static void xv_lk_check_invariant(void)
 {
